@@ -38,7 +38,7 @@ def jsonable(obj, depth=0):
                 obj.encode("utf-8")
             except UnicodeEncodeError:
                 return "str!:" + repr(obj)
-            if len(obj) > 400:
+            if len(obj) > 6000:
                 return obj[:200] + "...<%d chars>..." % len(obj) + obj[-50:]
         return obj
     if isinstance(obj, float):
